@@ -173,6 +173,13 @@ class FnFlow:
                         if k.arg in self.params:
                             for n, d, l in self.sources(k.value):
                                 self.edges.append(Edge(n, k.arg, d, l, x, rec=True))
+                if astu.callee_name(x) in ("map", "filter", "itertools.starmap") and len(x.args) >= 2 and isinstance(x.args[0], ast.Lambda):
+                    # map(lambda item: …, xs): the parameter ranges over the elements of xs
+                    lam = x.args[0]
+                    lps = [a.arg for a in lam.args.posonlyargs + lam.args.args]
+                    for prm, it in zip(lps, x.args[1:]):
+                        for n, d, l in self.sources(it):
+                            self.edges.append(Edge(n, prm, d - 1, l, x))
                 if astu.short_name(x) == "isinstance" and len(x.args) == 2 and isinstance(x.args[0], ast.Name):
                     t = x.args[1]
                     kinds = {ast.unparse(y).split(".")[-1] for y in (t.elts if isinstance(t, ast.Tuple) else [t])}
